@@ -9,7 +9,7 @@ use crate::util::{par_map, Kv};
 
 pub fn meta(ctx: &Ctx) -> Meta {
     Meta {
-        rule: format!("single layers: FULL lattice L (kernel 1-3 x stride 1-2(3 for pool) x padding 0-2 x dilation 1-2 x channels 1-2 x filters 1-3 x planes {{3,4,5,6}}x{{3,4,5,7}}, rectangular and asymmetric included) for convolution, deconvolution, max-pool with linear activation on pairwise-distinct integer data{}, both input representations (flat vector / CxHxW, must be bit-identical); ring of <= {} deviations x E5 x dyadic data; dense n,m in 1..4 x E5+softmax x bias; networks: every sequence of <= {} layers from {{dense,conv,deconv,pool,feedback}} over 5 input shapes with <= {} configuration deviations that the reference accepts. Oracle: definitional reference forward, pre- and post-activation of every layer. Non-trivial = case whose reference output has >= 2 distinct non-zero entries",
+        rule: format!("single layers: FULL lattice L (kernel 1-3 x stride 1-2(3 for pool) x padding 0-2 x dilation 1-2 x channels 1-2 x filters 1-3 x planes {{1,2,3,4,5,6}}x{{1,2,3,4,5,7}}, rectangular and asymmetric included) for convolution, deconvolution, max-pool with linear activation on pairwise-distinct integer data{}, both input representations (flat vector / CxHxW, must be bit-identical); ring of <= {} deviations x E5 x dyadic data; dense n,m in 1..4 x E5+softmax x bias; networks: every sequence of <= {} layers from {{dense,conv,deconv,pool,feedback}} over 5 input shapes with <= {} configuration deviations that the reference accepts. Oracle: definitional reference forward, pre- and post-activation of every layer. Non-trivial = case whose reference output has >= 2 distinct non-zero entries",
             if ctx.tier.thorough() { " and dyadic data, and ReLU" } else { "" }, if ctx.tier.thorough() { 3 } else { 2 }, 3, if ctx.tier.thorough() { 2 } else { 1 }),
         bound: "kernel <= 3, stride <= 2 (3 pool), padding <= 2, dilation <= 2, planes <= 6x7, depth <= 3".into(),
         exhaustive: true,
